@@ -68,6 +68,9 @@ func drawC07(rt *rapid.T) *Case {
 			}
 		}
 	}
+	if d.Get("seq") == nil {
+		d.Set("seq", gen.Arr(gen.Num(10), gen.Num(11), gen.Num(12), gen.Num(13), gen.Num(14), gen.Num(15)))
+	}
 	if gen.Uniform(rt, "thread", 12) == 0 {
 		// a thread nested 6..11 levels (objects and arrays in turn), two branches at every level
 		levels := 6 + gen.Uniform(rt, "threadlevels", 6)
@@ -114,6 +117,7 @@ func drawC07(rt *rapid.T) *Case {
 	multi := func(ents ...gen.MultiEntry) gen.Step { return gen.Step{Kind: gen.KMulti, Ent: ents} }
 	fn := func(name string, agg bool) gen.Step { return gen.Step{Kind: gen.KFunc, Fn: name, Agg: agg} }
 	w, e := gen.MultiEntry{Wild: true}, func(k string) gen.MultiEntry { return gen.MultiEntry{Key: k, Q: gen.NSQ} }
+	sl := func(a, b int) gen.Sub { return gen.Sub{Kind: gen.KSlice, Start: &a, End: &b, TwoPart: true} }
 	templates := [][]gen.Step{
 		{wild}, {bwild}, {rec(wild)}, {wild, wild}, {exists()}, {rec(exists())}, {multi(w, e(k1))}, {rec(name(k1))},
 		{exists(name(k1))}, {multi(e(k2), e(k1), w)}, {rec(multi(e(k1), w))}, {rec(exists(name(k1)))}, {wild, exists()}, {multi(w, w)},
@@ -124,6 +128,10 @@ func drawC07(rt *rapid.T) *Case {
 		{multi(e(k2), e("zz1"), e(k1), e("zz0"), e(k2), e("zz2"))}, {wild, multi(e("z"), e("b"), e("zz"), e("a"), e("b"), e("B"), e("aa"))},
 		{rec(multi(e("z"), e("a"), e("zz3"), e("B"), e("a"), e("zz4")))},
 		// a function that re-enters the parsed function in the middle of a traversal
+		// unions are read in the order written: slices that touch, high part first; repeated and crossing subscripts
+		{name("seq"), gen.Step{Kind: gen.KUnion, Sub: []gen.Sub{sl(2, 4), sl(0, 2)}}}, {name("seq"), gen.Step{Kind: gen.KUnion, Sub: []gen.Sub{{Kind: gen.KIndex, N: 3}, sl(1, 3), {Kind: gen.KIndex, N: 0}}}},
+		{rec(gen.Step{Kind: gen.KUnion, Sub: []gen.Sub{sl(1, 2), sl(0, 1)}})}, {name("seq"), gen.Step{Kind: gen.KUnion, Sub: []gen.Sub{sl(4, 6), sl(2, 4), sl(0, 2)}}},
+		{name("seq"), gen.Step{Kind: gen.KUnion, Sub: []gen.Sub{{Kind: gen.KIndex, N: 1}, {Kind: gen.KIndex, N: 0}, {Kind: gen.KIndex, N: 1}}}},
 		// subscripts after a recursive descent (arrays of every length below)
 		{rec(gen.Step{Kind: gen.KIndex, Sub: []gen.Sub{{Kind: gen.KIndex, N: 0}}})}, {rec(gen.Step{Kind: gen.KIndex, Sub: []gen.Sub{{Kind: gen.KIndex, N: -1}}})},
 		{rec(gen.Step{Kind: gen.KUnion, Sub: []gen.Sub{{Kind: gen.KIndex, N: 1}, {Kind: gen.KIndex, N: 0}}})},
